@@ -251,6 +251,8 @@ namespace hist
         // how the next unwind is carried out: 0 directly, 1 by the destructor of a
         // memory_stack_raii_unwind, 2 by its unwind() member (generated per operation)
         virtual void set_unwind_mode(unsigned) {}
+        // a subject-level observation that contradicts the documentation (nullptr: none)
+        const char* complaint_ = nullptr;
         virtual bool next_iteration()
         {
             return false;
